@@ -92,6 +92,7 @@ package upstream
 //@   modifies-all $gDialed $gDialedUpstream
 //@   ghost-set gDialed = true
 //@   ghost-set gDialedUpstream = self
+//@   ensures[conn-or-error] result1 == nil ==> result0 != nil
 
 // ---------------------------------------------------------------------------
 // The upstream handler (C16, C10, C01): typestate of one connection.
@@ -241,17 +242,20 @@ package upstream
 //@   ghost-set gDialNet = network
 //@   ghost-set gDialTLS = false
 //@   ghost-set gDialCount = old(gDialCount) + 1
+//@   ensures[conn-or-error] result1 == nil ==> result0 != nil
 //@ extern crypto/tls.Dial
 //@   modifies-all $gDialAddr $gDialNet $gDialTLS $gDialCount
 //@   ghost-set gDialAddr = addr
 //@   ghost-set gDialNet = network
 //@   ghost-set gDialTLS = true
 //@   ghost-set gDialCount = old(gDialCount) + 1
+//@   ensures[conn-or-error] result1 == nil ==> result0 != nil
 
 //@ nonnil ConnUpstream.sess NodeUpstream.node
 
 //@ contract (*ConnUpstream).Dial
 //@   serves C01 C16 C05
+//@   ensures[conn-or-error] result1 == nil ==> result0 != nil
 //@   ensures[own-session] gStreamOn == u.sess
 //@   ensures[gone] gStreamErr != nil && errIs(gStreamErr, yamux.ErrRemoteGoAway) ==> result1 == ErrGone
 //@   ensures[passthrough] !(gStreamErr != nil && errIs(gStreamErr, yamux.ErrRemoteGoAway)) ==> result1 == gStreamErr
@@ -259,6 +263,7 @@ package upstream
 
 //@ contract (*NodeUpstream).Dial
 //@   serves C01 C06
+//@   ensures[conn-or-error] result1 == nil ==> result0 != nil
 //@   requires[fresh-step] gDialCount == 0
 //@   ensures[proxy-addr] gDialCount == 1 && gDialAddr == u.node.ProxyAddr && gDialNet == "tcp"
 //@   ensures[tls-iff-configured] gDialTLS == (u.tlsConfig != nil)
